@@ -70,6 +70,8 @@ theorem proj_morph (cb : Ctx B B) (hE : cb.e = cb.b) (hmul : cb.mulBase = cb.b.m
     (hk : k < N) : Morph (vecCtx cb N) cb (fun v : Vector B N => v[k]) where
   hb := rfl
   hexp := rfl
+  hroot := rfl
+  hta := rfl
   zero := by simp [vecCtx, vecOps, hE]
   add := fun x y => by simp [vecCtx, vecOps, hE]
   sub := fun x y => by simp [vecCtx, vecOps, hE]
